@@ -259,7 +259,7 @@ func (m *Replicas) replay(w *engine.World, kind string) {
 	}
 	rep := engine.NewNode("replica-"+kind, w.NodeOpt)
 	gt := time.Unix(w.Cfg.GenesisUnix, 0).UTC()
-	if err := rep.InitChain(w.GenesisState, gt, 1, w.Cfg.MaxGas); err != nil {
+	if err := rep.InitChain(w.GenesisState, gt, w.Base()+1, w.Cfg.MaxGas); err != nil {
 		w.Violate("C11", "replica-genesis/"+kind, "the genesis the primary accepted was rejected by a replica (%s): %v", kind, err)
 		return
 	}
